@@ -50,6 +50,13 @@ func (a *application) start(mode gen.ApplicationMode, options gen.ApplicationOpt
 		appEnv[k] = v
 	}
 
+	// a member can terminate while the others are still being started, and a failed
+	// start is rolled back by killing the members: both end up in terminate(), which
+	// must work with the mode and the 'stopped' channel of this run, not with those
+	// left behind by the previous one (closing that channel again would panic)
+	a.mode = mode
+	a.stopped = make(chan struct{})
+
 	// start items
 	for _, item := range a.spec.Group {
 		opts := gen.ProcessOptionsExtra{
@@ -78,9 +85,7 @@ func (a *application) start(mode gen.ApplicationMode, options gen.ApplicationOpt
 		a.group.Store(pid, true)
 	}
 
-	a.stopped = make(chan struct{})
 	a.node.log.Info("application %s (%s) started", a.spec.Name, a.mode)
-	a.mode = mode
 	a.parent = options.CorePID.Node
 
 	a.started = time.Now().Unix()
